@@ -1664,7 +1664,7 @@ theorem amount_nine_decimals_accepted :
     transaction it stores satisfies everything `parseTxHex_sound` says. -/
 theorem parseTransactionArg_amounts (text : Bytes) (amounts : List Int) (tx : Tx) (n : Nat)
     (h : parseTransactionArg text = some (amounts, tx, n)) :
-    n = 0 ∧ Spec.WellFormed tx ∧ tx.vin.length ≤ amounts.length := by
+    n = 0 ∧ Spec.WellFormed tx ∧ tx.vin.length ≤ amounts.length ∧ tx.vin ≠ [] := by
   unfold parseTransactionArg at h
   simp only at h
   split at h
@@ -1673,10 +1673,12 @@ theorem parseTransactionArg_amounts (text : Bytes) (amounts : List Int) (tx : Tx
     split at h
     · simp at h
     next tx1 n1 hp =>
-      simp only [Option.some.injEq, Prod.mk.injEq] at h
+      by_cases hne : tx1.vin.isEmpty = true
+      · simp [hne] at h
+      simp only [hne, Bool.false_eq_true, if_false, Option.some.injEq, Prod.mk.injEq] at h
       obtain ⟨rfl, rfl, rfl⟩ := h
       obtain ⟨h0, hwf, _⟩ := parseTxHex_sound p tx1 n1 hp
-      refine ⟨h0, hwf, ?_⟩
+      refine ⟨h0, hwf, ?_, by intro hnil; rw [hnil] at hne; simp at hne⟩
       simp only [List.length_append, List.length_replicate]
       omega
 
